@@ -102,3 +102,8 @@ Example particle_gibbs_default_is_first_phase :
   particleGibbs gname gb gibbs ps (0, 0, 0)%nat None (Some 11%nat) = 35%nat /\
   particleGibbs gname gb gibbs ps (0, 0, 0)%nat (Some 5%nat) None = 10%nat.
 Proof. vm_compute. split; reflexivity. Qed.
+
+(* a late-bound callback reads the LAST listed phase: refuted for the first of two phases *)
+Example callback_late_refuted :
+  callback (fun q : nat => q) Late [10; 20]%nat 0%nat 0 = 20%nat /\ callback (fun q : nat => q) Early [10; 20]%nat 0%nat 0 = 10%nat.
+Proof. vm_compute. split; reflexivity. Qed.
